@@ -99,15 +99,23 @@ def exnName : Req.Exn → String
 
 def ofPairs (ps : List (Bytes × Bytes)) : Sexp := .list (ps.map fun p => .list [ofBytes p.1, ofBytes p.2])
 
+def c14Spec? : Sexp → Option Req.Spec
+  | .list [m, p, qa, hs, bk, raw, form, host, bd] => do
+    some ⟨(← bytes? m), (← bytes? p), (← pairs? qa), (← pairs? hs), (← nat? bk), (← bytes? raw), (← pairs? form), (← bytes? host), (← bytes? bd)⟩
+  | _ => none
+
+def c14View : Except Req.Exn Req.View → Sexp
+  | .error e => .list [sym "error", sym (exnName e)]
+  | .ok v => .list [sym "ok", ofBytes v.method, ofBytes v.path, ofPairs v.query, ofPairs v.headers, ofBytes v.body]
+
 def c14 : Sexp → Option Sexp
-  | .list [.atom "c14", m, p, qa, hs, bk, raw, form, host] => do
-    let spec : Req.Spec := ⟨(← bytes? m), (← bytes? p), (← pairs? qa), (← pairs? hs), (← nat? bk), (← bytes? raw), (← pairs? form), (← bytes? host)⟩
-    match Req.build spec with
-    | .error e => some (.list [sym "raise", sym (exnName e)])
-    | .ok msg =>
-      match Req.recover msg with
-      | .error e => some (.list [ofBytes msg, .list [sym "error", sym (exnName e)]])
-      | .ok v => some (.list [ofBytes msg, .list [sym "ok", ofBytes v.method, ofBytes v.path, ofPairs v.query, ofPairs v.headers, ofBytes v.body]])
+  | .list [.atom "c14", .list specs] => do
+    let specs ← specs.mapM c14Spec?
+    let builds := specs.map Req.build
+    let stream := builds.foldl (fun acc b => match b with | .ok m => acc ++ m | .error _ => acc) []
+    let n := (builds.filter (fun b => match b with | .ok _ => true | .error _ => false)).length
+    some (.list [.list (builds.map fun b => match b with | .ok m => ofBytes m | .error e => .list [sym "raise", sym (exnName e)]),
+                 .list ((Req.recoverSeq n stream).map c14View)])
   | .list [.atom "quote", b] => do some (ofBytes (Req.quote (← bytes? b)))
   | .list [.atom "quote_plus", b] => do some (ofBytes (Req.quotePlus (← bytes? b)))
   | .list [.atom "unquote", b] => do some (ofBytes (Req.unq (← bytes? b)))
